@@ -704,6 +704,21 @@ def gen_plan_tree(rng) -> PlanTree:
         steps.append({"name": "tool use_opt", "plan": target, "inp": ["out/opt.txt"], "out": ["out/use_opt.txt"],
                       "optional": False})
         tree.motif = target
+    if rng.random() < 0.35:
+        # A plan nested two levels down that declares one source nobody uses and one that a step
+        # of the root plan uses: when an ancestor plan is dropped, cleaning removes the first and
+        # keeps the second (with the declaring plan step); the plan must run again after a re-add.
+        deep = [p for p, info in plans.items() if info["parent"] not in (None, "root")]
+        if not deep:
+            parent = rng.choice([p for p in plans if p != "root"])
+            plans["pe"] = {"parent": parent, "note": 0, "dropped": False}
+            deep = ["pe"]
+        target = rng.choice(deep)
+        sources[f"src/{target}_held.txt"] = (target, "held v0\n")
+        sources[f"src/{target}_free.txt"] = (target, "free v0\n")
+        steps.append({"name": "tool hold", "plan": "root", "inp": [f"src/{target}_held.txt"],
+                      "out": ["out/hold.txt"], "optional": False})
+        tree.motif2 = plans[target]["parent"]
     return tree
 
 
@@ -713,6 +728,8 @@ TREE_MUTATIONS = ("touch_plan", "touch_plan", "edit_source", "edit_source", "dro
 
 def mutate_plan_tree(rng, tree: PlanTree, kind: str | None = None) -> tuple[PlanTree, str]:
     new = copy.deepcopy(tree)
+    if kind is None and any(info["dropped"] for info in new.plans.values()) and rng.random() < 0.5:
+        kind = "readd_child"  # drop, clean up, re-add unchanged: the shape the property text names
     kind = kind or rng.choice(TREE_MUTATIONS)
     if kind == "touch_plan":
         plan = rng.choice([p for p in new.plans if new.active(p)])
@@ -748,9 +765,19 @@ def gen_tree_history(rng, nphase=None):
     """`(trees, events, mutations)`: build, then 1-3 phases of one mutation each and a build."""
     tree = gen_plan_tree(rng)
     trees, events, mutations = [tree], [("build", {"njob": rng.randint(1, 3)})], []
-    for _ in range(nphase or rng.randint(1, 3)):
+    forced = []
+    if getattr(tree, "motif2", None) and rng.random() < 0.6:
+        forced = ["drop_child:" + tree.motif2, "readd_child:" + tree.motif2]
+        nphase = max(nphase or 0, 2 + rng.randint(0, 1))
+    for n in range(nphase or rng.randint(1, 3)):
         old = trees[-1].render()
-        new, kind = mutate_plan_tree(rng, trees[-1])
+        if n < len(forced):
+            new = copy.deepcopy(trees[-1])
+            what, plan = forced[n].split(":")
+            new.plans[plan]["dropped"] = what == "drop_child"
+            kind = forced[n]
+        else:
+            new, kind = mutate_plan_tree(rng, trees[-1])
         import projgen
 
         events.append(("edits", projgen._edits_between(old, new.render())))
